@@ -91,6 +91,8 @@ class World:
         self.probes = {}         # coverage probes
         self.tripwires = []
         self.max_conns = int(plan.get('knobs', {}).get('max_conns', 50000))
+        # bytes one send() call takes at most (a full send buffer makes send() on a socket with a timeout return a short count); 0 = unlimited
+        self.sndbuf = int(plan.get('knobs', {}).get('sndbuf', 0) or 0)
         self.net_time_us = 0     # virtual time spent by data in flight (latency, gaps, injected delays)
         self.executors = []
         self.exec_future_counter = 0
@@ -510,13 +512,20 @@ class SimSocket:
             k.record('tool', 'send_rst', self.fd)
             raise BrokenPipeError(errno.EPIPE, 'Broken pipe')
         data = bytes(data)
+        if w.sndbuf and len(data) > w.sndbuf:
+            data = data[:w.sndbuf]
+            w.fired('short_send')
         k.record('tool', 'send', self.fd, len(data))
         w.transmit(self.end, data)
         return len(data)
 
     def sendall(self, data, flags=0):
-        self.send(data, flags)
-        return None
+        data = bytes(data)
+        while True:
+            n = self.send(data, flags)
+            data = data[n:]
+            if not data:
+                return None
 
     def makefile(self, *a, **kw):
         raise SimUnsupported('socket.makefile')
